@@ -342,6 +342,14 @@ theorem some_event_enabled {s : State} (hw : WF s) (hcap : 0 < s.cap)
         have : 0 < s.silent ∧ 0 < s.prio := by omega
         simp [step, stepGen, this]⟩
 
+/-- All invocations have returned. -/
+def AllReturned (s : State) : Prop := ∀ v ∈ s.invs, v.pc = .returned
+
+instance (s : State) : Decidable (AllReturned s) := by unfold AllReturned; infer_instance
+
+theorem exists_of_get {o : Option State} (h : o.isSome = true) (P : State → Prop)
+    (hp : P (o.get h)) : ∃ s, o = some s ∧ P s := ⟨o.get h, by simp, hp⟩
+
 /-! ### `bg.pass_wait` is logged after its linearisation point -/
 
 theorem forcePass_eq_passWait (s : State) (i : Nat) (hp : s.prio = 0) :
